@@ -300,5 +300,5 @@ def phases(tier):
   big = tier == 'thorough'
   return [
       {'name': 'float_compute', 'kind': 'hyp', 'strategy': lambda: cases(tier),
-       'run': check_case, 'examples': int((30000 if big else 3000) * k)},
+       'run': check_case, 'examples': int((100000 if big else 3000) * k)},
   ]
